@@ -12,11 +12,12 @@ import (
 	"golang.org/x/tools/go/ssa"
 )
 
-type indexException struct{ fn, reason string }
+type indexException struct{ fn, construct, reason string }
 
 // assumed-safe sites: one named function per line, with the reason (DESIGN §2.4.4)
 var indexExceptions = []indexException{
-	{"builtInFunctions.deleteRoles", "the index is the position returned by the linear search doesRoleExist (found == true), so 0 <= index < len(roles.Roles)"},
+	{"builtInFunctions.deleteRoles", "*", "the index is the position returned by the linear search doesRoleExist (found == true), so 0 <= index < len(roles.Roles)"},
+	{"(*data.BigIntCaster).MarshalTo", "P:buf[0]", "encoder contract: the generated marshaller sizes the buffer with Size() (>= 1 byte) before calling MarshalTo; Size/MarshalTo agreement is C14-R2"},
 }
 
 func sliceLike(t types.Type) bool {
@@ -179,7 +180,7 @@ func indexRule(c *Ctx, rule, doc string, scope func(*Prog, *ssa.Function) bool, 
 	c.Rule(rule, doc, floor)
 	exc := map[string]string{}
 	for _, x := range indexExceptions {
-		exc[x.fn] = x.reason
+		exc[x.fn+"|"+x.construct] = x.reason
 	}
 	for _, fn := range c.P.Funcs {
 		if !scope(c.P, fn) {
@@ -198,7 +199,11 @@ func indexRule(c *Ctx, rule, doc string, scope func(*Prog, *ssa.Function) bool, 
 				if k := seen[desc]; k > 1 {
 					construct += fmt.Sprintf(" #%d", k)
 				}
-				if why, isExc := exc[FuncName(fn)]; isExc {
+				why, isExc := exc[FuncName(fn)+"|*"]
+				if !isExc {
+					why, isExc = exc[FuncName(fn)+"|"+construct]
+				}
+				if isExc {
 					c.Triv(rule, FuncName(fn), construct, c.P.InstrPos(in), "assumed safe (listed exception): "+why)
 					continue
 				}
